@@ -337,7 +337,7 @@ def run(ctx):
             ctx.mismatch('poly:%s:%s' % (meta[i]['g'], meta[i]['op']), meta[i])
     # ---------------------------------------------------------------- Exp / Log backward, enclosure route
     ecases, emeta = [], []
-    ne = ctx.scale(10, 400)
+    ne = ctx.scale(60, 1500)
     for g in GROUPS:
         for op in ('Exp', 'Log'):
             for t in range(ne if g in ('SO3', 'SE3') else max(6, ne // 2)):
@@ -383,9 +383,9 @@ def run(ctx):
                 # the truncated sim3 series are compared with the model, which carries the same truncation
                 tol = 1e-7 * scale
                 fnm = 'exp_bwd' if op == 'Exp' else 'log_bwd'
-                ecases.append(dict(idx=i, expr='%s (1/4503599627370496) %d %s %s' % (fnm, GID[g], rlist(saved), rlist(gz)),
+                ecases.append(dict(idx=i, expr='%s (NF:=@NF@) (TF:=TransIv) E64 %d %s %s' % (fnm, GID[g], ivlist(saved), ivlist(gz)),
                                    comps=[(j, gx[j], tol) for j in range(len(gx))]))
-    r = run_enclosure('C04', 'Model.LieGroup Model.LieExp Model.LieLog Model.LieJac', ecases, prec=160, per_file=ctx.scale(3, 20), timeout_goal=600, tag='jac')
+    r = run_interval('C04', 'Model.LieGroup Model.LieExp Model.LieLog Model.LieJac', ecases, tag='jac')
     for name, out in r['broken']:
         ctx.obligation_broken('correspondence-file:' + name, out)
     ctx.notes.append('Exp/Log backward enclosure: %d within tolerance, %d outside, %d undecided' % (len(r['ok']), len(set(i for i, _ in r['bad'])), len(r['undecided'])))
